@@ -5,10 +5,11 @@ import NsyncVerif.Proofs.MuCInv12Resp
 namespace NsyncVerif.MuC
 
 theorem inv12_init : Inv12 init := by
-  refine ⟨?_, ?_, ?_, ?_, ?_, ?_, ?_⟩
+  refine ⟨?_, ?_, ?_, ?_, ?_, ?_, ?_, ?_⟩
   · intro h; simp [init, Word.zero] at h
   · intro h; simp [init, Word.zero] at h
   · intro h; simp [init, Word.zero] at h
+  · intro t old ho; simp [init, PC.mtOld] at ho
   · intro t old ho; simp [init, PC.mtOld] at ho
   · intro t; simp [init, PC.ok12]
   · intro t k hk; simp [init, PC.lsRec] at hk
@@ -32,7 +33,7 @@ theorem Inv12.env {s s' : State} (h : Inv12 s) (hq : s'.queue = s.queue)
     · right; left; right; left; rw [hpc]; exact b
     · right; left; right; right; exact ⟨k, by rw [hpc]; exact b1, by rw [hpc]; exact b2, fun e => b3 ((hQ k).1 e)⟩
     · right; right; rw [hpc]; exact b
-  refine ⟨?_, ?_, ?_, ?_, ?_, ?_, ?_⟩
+  refine ⟨?_, ?_, ?_, ?_, ?_, ?_, ?_, ?_⟩
   · intro a
     rw [hw] at a
     rcases h.ww a with ⟨u, b⟩ | ⟨k, b1, b2, b3⟩
@@ -48,6 +49,7 @@ theorem Inv12.env {s s' : State} (h : Inv12 s) (hq : s'.queue = s.queue)
     obtain ⟨u, c, b1, b2⟩ := h.lw a
     exact ⟨u, c, by rw [hpc]; exact b1, b2⟩
   · intro u old a; rw [hpc] at a; rw [hw]; exact h.mtw u old a
+  · intro u old a b; rw [hpc] at a; rw [hw]; exact h.mtlw u old a b
   · intro u; rw [hpc]; exact h.ok u
   · intro u k a; rw [hpc] at a; rw [(hwr k).1]; exact h.rcn u k a
   · intro a b
@@ -69,7 +71,7 @@ theorem inv12_dataW {s : State} {t : Tid} {x : Nat} {v : Int} (a : Invs s) (h : 
     rcases h.wws b hc with ⟨u, c⟩ | ⟨k, c1, c2, c3⟩
     · exact Or.inl ⟨u, hWJ u c⟩
     · exact Or.inr ⟨k, c1, c2, c3⟩
-  refine ⟨?_, ?_, h.lw, h.mtw, h.ok, h.rcn, ?_⟩
+  refine ⟨?_, ?_, h.lw, h.mtw, h.mtlw, h.ok, h.rcn, ?_⟩
   · intro b
     rcases key b with c | ⟨k, c1, c2, c3⟩
     · exact Or.inl c
